@@ -6,6 +6,8 @@ Timing theorems are about `checkTimeouts`, the silence timers of `UdpProtocol::p
 Running state; the cut-off theorem is about `SyncLayer::synchronized_inputs`.
 -/
 import GgrsModel.Model.Inventory
+import GgrsModel.Model.Sites.Protocol
+import GgrsModel.Model.Sites.P2pSession
 import GgrsModel.Proofs.Endpoint
 import GgrsModel.Model.P2P
 import GgrsModel.Proofs.Monad
